@@ -239,6 +239,12 @@ func (c05) Case(c *core.Ctx) {
 	if r.Intn(2) == 0 {
 		mxj.XMLEscapeCharsDecoder(true)
 		checkSwitches(c, "XMLEscapeCharsDecoder(true)")
+		if r.Intn(3) == 0 {
+			// a cast-exemption hook is about casting, not about escaping: ambient noise
+			mxj.SetCheckTagToSkipFunc(func(t string) bool { return len(t)%2 == 1 || strings.HasPrefix(t, "-") || strings.HasPrefix(t, "#") })
+			defer mxj.SetCheckTagToSkipFunc(nil)
+			c.Count("clause2:cast-skip-hook-installed")
+		}
 		root := &xt.Node{Local: "r", Attrs: []xt.Attr{{Local: "a", Val: ss[0]}, {Prefix: "ns", Local: "p", Val: ss[3]}, {Prefix: "xmlns", Local: "ns", Val: "urn:x" + ss[1]}, {Local: "xmlns", Val: "urn:d" + ss[4]}}}
 		add := func(n *xt.Node) { root.Items = append(root.Items, xt.Item{Kind: xt.KElem, El: n}) }
 		e := &xt.Node{Local: "e"}
